@@ -1,8 +1,9 @@
 (* C08, byte-exact Tuple.Encode sub-check: the case type and the boolean functions the check
    evaluates on every case (`tuple_model_agrees` = TM, `tuple_spec` = TS).
-   MOVED UNCHANGED from the header string of tools/props/c08.py (which prepends hist.HEADER, i.e.
-   the three lines below) so that theorems can be stated about them (Proofs/TupleOracle.v,
-   Properties/C08.v); the check should import them from here. *)
+   Originally in the header string of tools/props/c08.py (after hist.HEADER, i.e. the three lines
+   below); the check imports them from here, the theorems about them are in Proofs/TupleOracle.v
+   and Properties/C08.v. Since then `tuple_model_agrees` also compares a failed decode with the
+   model. *)
 From Mkdb Require Import Spec.HistObs.
 Local Open Scope string_scope.
 Local Open Scope N_scope.
@@ -15,6 +16,7 @@ Definition tuple_model_agrees (c : tuple_case) : bool :=
   res_bytes_eqb (encode_tuple sch m) enc &&
   match enc, dec with
   | Ok bs, Some r => match decode_row sch bs with Ok r' => row_eqb r r' | _ => false end
+  | Ok bs, None => match decode_row sch bs with Ok _ => false | _ => true end   (* Go failed to decode its own bytes *)
   | _, _ => true
   end.
 (* the property on the observed bytes: decoding what Go encoded gives the values back *)
@@ -26,7 +28,7 @@ Definition tuple_spec (c : tuple_case) : bool :=
   | _, _ => true
   end.
 
-(* ---- NOT in c08.py (a proposal): the same oracle with the other two clauses of the property.
+(* ---- the oracle the check uses (TS): the same with the other two clauses of the property.
    `tuple_spec` only judges the round trip of an accepted row: it accepts every refusal and does
    not look at the encoded size. `tuple_spec_strict` is stated with the specification's own
    functions (Spec/TableSpec.v row_err / row_size, no codec):
